@@ -242,3 +242,111 @@ def dominating_guards(fi, target_node):
 
 def key_of(fi, what):
     return "%s::%s" % (fi.qual, what)
+
+
+# ------------------------------------------------------- reaching definition
+def reaching_unique_def(fi, name, use_astnode):
+    """The single binding of local `name` that reaches the use on every path (dominates it and is not
+    overwritten on any path in between); None if there is no such unique binding."""
+    from .terms import Env
+    c = cfg_of(fi)
+    env = terms_of(fi).env
+    use = c.node_containing(use_astnode)
+    if use is None:
+        return None
+    cands = []
+    bnodes = []
+    for b in env.bindings.get(name, []):
+        if b.kind == "param":
+            bn = c.entry
+        else:
+            bn = c.node_of(b.stmt) if isinstance(b.stmt, ast.stmt) else None
+            if bn is None:
+                bn = c.node_containing(b.stmt)
+        if bn is None:
+            continue
+        bnodes.append((b, bn))
+    for (b, bn) in bnodes:
+        if bn is use and b.kind != "param":
+            continue
+        if not c.dominates(bn, use):
+            continue
+        others = [x for (_b2, x) in bnodes if x is not bn]
+        # no other binding on a path bn -> use
+        r = c.reachable_after(bn, blocked=[use]) if bn is not c.entry else c.reachable(blocked=[use])
+        clean = True
+        for o in others:
+            if o.idx in r:
+                # o reachable from bn before use; does use remain reachable from o?
+                if use.idx in c.reachable_after(o) or o is use:
+                    clean = False
+        if clean:
+            cands.append(b)
+    if len(cands) == 1:
+        return cands[0]
+    return None
+
+
+# ------------------------------------------------------ paired symmetric stores
+def _index_pair(sub, tm):
+    """(matrix name, i-term, j-term) for M[i][j] or M[i, j] targets; None otherwise."""
+    if isinstance(sub, ast.Subscript):
+        if isinstance(sub.value, ast.Subscript) and isinstance(sub.value.value, ast.Name):
+            return sub.value.value.id, tm.term(sub.value.slice), tm.term(sub.slice)
+        if isinstance(sub.value, ast.Name) and isinstance(sub.slice, ast.Tuple) and len(sub.slice.elts) == 2:
+            return sub.value.id, tm.term(sub.slice.elts[0]), tm.term(sub.slice.elts[1])
+    return None
+
+
+def triangular_loops(stmt):
+    """For a statement nested in `for i in range(..): for j in range(i, ..)` return (outer var, inner var)
+    of the innermost triangular pair, else None."""
+    loops = [l for l in enclosing_loops(stmt) if isinstance(l, ast.For) and isinstance(l.target, ast.Name)]
+    for k in range(len(loops) - 1, 0, -1):
+        inner = loops[k]
+        it = inner.iter
+        if isinstance(it, ast.Call) and isinstance(it.func, ast.Name) and it.func.id == "range" and len(it.args) >= 2 \
+                and isinstance(it.args[0], ast.Name):
+            for outer in loops[:k]:
+                if outer.target.id == it.args[0].id:
+                    return outer.target.id, inner.target.id
+    return None
+
+
+def symmetric_store_report(fi, matrices=None):
+    """[(store stmt, matrix, ok, detail)] for every element store M[a][b] = v inside a triangular double loop
+    (inner loop starts at the outer index) with {a,b} = {outer, inner}: a companion store M[b][a] = v (same value
+    term) must exist in the same block, or the store must be on the diagonal (guarded by a == b)."""
+    tm = terms_of(fi, max_depth=0)
+    out = []
+    for st in walk_local(fi.node):
+        if not isinstance(st, ast.Assign) or len(st.targets) != 1:
+            continue
+        ip = _index_pair(st.targets[0], tm)
+        if ip is None:
+            continue
+        m, a, b = ip
+        if matrices is not None and m not in matrices:
+            continue
+        tri = triangular_loops(st)
+        if tri is None:
+            continue
+        outer, inner = ("n", tri[0]), ("n", tri[1])
+        if {a, b} != {outer, inner}:
+            continue
+        v = tm.term(st.value)
+        block = getattr(st, "_parent", None)
+        sibs = []
+        for fld in ("body", "orelse"):
+            lst = getattr(block, fld, None)
+            if isinstance(lst, list) and st in lst:
+                sibs = lst
+        comp = False
+        for s2 in sibs:
+            if s2 is st or not isinstance(s2, ast.Assign) or len(s2.targets) != 1:
+                continue
+            ip2 = _index_pair(s2.targets[0], tm)
+            if ip2 is not None and ip2[0] == m and ip2[1] == b and ip2[2] == a and tm.term(s2.value) == v:
+                comp = True
+        out.append((st, m, comp, "%s[%s][%s] = %s" % (m, show(a), show(b), show(v))))
+    return out
